@@ -6,67 +6,10 @@
 -/
 import Pdlv.Wire
 import Pdlv.Lemmas.Bits
+import Pdlv.Lemmas.Enc
+import Pdlv.Thm.C16
 
 namespace Pdlv
-
-/-- every integer write produces exactly `w / 8` octets -/
-theorem putUint_length (e : Endian) (w v : Nat) : (putUint e w v).length = w / 8 := by
-  cases e <;> simp [putUint, toLE_length, toBE_length]
-
-/-- a bit-field group is written as exactly `bits / 8` octets — whatever its fields are -/
-theorem encChunk_length (c : Cfg) (all : Items) (p : Enc Bytes) (n : Nat) (v : Value) (fs : List BitField)
-    (bs : Bytes) (h : encItem c all p n v (.chunk fs) = .ok bs) :
-    bs.length = lenItem (.chunk fs) v := by
-  simp only [encItem, Outcome.bind] at h
-  cases hx : encChunkFields (c.mode == .ideal) all n v fs 0 0 with
-  | ok x =>
-    simp only [hx, Outcome.ok.injEq] at h
-    rw [← h, putUint_length]; rfl
-  | err e => simp [hx] at h
-  | panic p => simp [hx] at h
-
-/-- the payload is written verbatim -/
-theorem encPayload_verbatim (c : Cfg) (all : Items) (p : Bytes) (n : Nat) (v : Value) (m : PayloadMode) :
-    encItem c all (.ok p) n v (.payload m) = .ok p := by
-  simp only [encItem]
-
-/-- element loops: if every element's encoding has the length `g` promises, the array's
-    encoding has the summed length (`iter().map(encoded_len).sum()`) -/
-theorem encListWith_length (f : Value → Enc Bytes) (g : Value → Nat)
-    (hf : ∀ v bs, f v = .ok bs → bs.length = g v) :
-    ∀ vs bs, encListWith f vs = .ok bs → bs.length = sumLen g vs := by
-  intro vs
-  induction vs with
-  | nil => intro bs h; simp [encListWith] at h; simp [← h, sumLen]
-  | cons v vs ih =>
-    intro bs h
-    simp only [encListWith, Outcome.bind] at h
-    cases hv : f v with
-    | ok a =>
-      simp only [hv] at h
-      cases hr : encListWith f vs with
-      | ok b =>
-        simp only [hr, Outcome.ok.injEq] at h
-        rw [← h, List.length_append, hf v a hv, ih b hr, sumLen]
-      | err e => simp [hr] at h
-      | panic p => simp [hr] at h
-    | err e => simp [hv] at h
-    | panic p => simp [hv] at h
-
-/-- scalars, enums and custom fields are written on exactly their declared width -/
-theorem encTy_scalar_length (c : Cfg) (w : Nat) (v : Value) (bs : Bytes)
-    (h : encTy c (.scalar w) v = .ok bs) : bs.length = lenTy (.scalar w) v := by
-  cases v with
-  | int x =>
-    simp only [encTy] at h
-    split at h
-    · cases h
-    · split at h
-      · cases h
-      · simp only [Outcome.ok.injEq] at h; rw [← h, putUint_length]; rfl
-  | arr _ => simp [encTy] at h
-  | obj _ => simp [encTy] at h
-  | null => simp [encTy] at h
 
 /-- **A scalar that exceeds its declared width is an error, not truncated bits** (bit-fields). -/
 theorem scalar_out_of_range_is_error (ideal : Bool) (items : Items) (n : Nat) (v : Value)
@@ -102,5 +45,318 @@ theorem array_elem_truncates_rust :
 theorem array_elem_error_ideal :
     encTy { e := .little, mode := .ideal } (.scalar 24) (.int 0x1000001) = .err .invalidScalarValue := by
   rfl
+
+end Pdlv
+
+namespace Pdlv
+
+/-! ### `encoded_len` is the length of what `encode` writes — whole packets -/
+
+/-- the hypothesis of the length theorems (decidable; evaluated by the check on every layout) -/
+def LenWFTy (t : Ty) : Prop := lenWfTy t = true
+def LenWFItem (i : Item) : Prop := lenWfItem i = true
+def LenWFItems (is : Items) : Prop := lenWfItems is = true
+def LenWFBody (b : Body) : Prop := lenWfBody b = true
+
+theorem lenItemsP_payloadLen (v : Value) : ∀ (is : Items),
+    lenItemsP is v (((v.get? "payload").bind Value.asList?).getD []).length = lenItems is v
+  | .nil => by simp [lenItemsP, lenItems]
+  | .cons i r => by
+    have ih := lenItemsP_payloadLen v r
+    cases i <;> simp [lenItemsP, lenItems, lenItem, ih]
+
+theorem lenItemsP_noPayload (v : Value) (n : Nat) : ∀ (is : Items), is.hasPayload = false →
+    lenItemsP is v n = lenItems is v
+  | .nil, _ => by simp [lenItemsP, lenItems]
+  | .cons i r, h => by
+    cases i with
+    | payload m => simp [Items.hasPayload] at h
+    | chunk fs =>
+      have ih := lenItemsP_noPayload v n r (by simpa [Items.hasPayload] using h)
+      simp [lenItemsP, lenItems, ih]
+    | array id elem ew shape pad =>
+      have ih := lenItemsP_noPayload v n r (by simpa [Items.hasPayload] using h)
+      simp [lenItemsP, lenItems, ih]
+    | typedef id ty sb =>
+      have ih := lenItemsP_noPayload v n r (by simpa [Items.hasPayload] using h)
+      simp [lenItemsP, lenItems, ih]
+    | optional id ty ci cv =>
+      have ih := lenItemsP_noPayload v n r (by simpa [Items.hasPayload] using h)
+      simp [lenItemsP, lenItems, ih]
+
+theorem mapM_some_length {α β : Type} (f : α → Option β) : ∀ (l : List α) (r : List β),
+    l.mapM f = some r → r.length = l.length
+  | [], r, h => by simp at h; simp [← h]
+  | a :: l, r, h => by
+    simp only [List.mapM_cons] at h
+    cases ha : f a with
+    | none => simp [ha] at h
+    | some b =>
+      cases hl : l.mapM f with
+      | none => simp [ha, hl] at h
+      | some bs =>
+        simp [ha, hl] at h
+        rw [← h, List.length_cons, List.length_cons, mapM_some_length f l bs hl]
+
+theorem valBytes_length (v : Value) (p : Bytes) (h : valBytes v = some p) :
+    p.length = (((some v).bind Value.asList?).getD []).length := by
+  cases v with
+  | arr vs =>
+    simp only [valBytes] at h
+    simp only [Option.bind_some, Value.asList?, Option.getD_some]
+    exact mapM_some_length _ vs p h
+  | int _ => simp [valBytes] at h
+  | obj _ => simp [valBytes] at h
+  | null => simp [valBytes] at h
+
+/-- the child's bytes are needed wherever a level has a payload item -/
+theorem encItems_inner_needed (c : Cfg) (all : Items) (inner : Enc Bytes) (pl : Nat) (v : Value) :
+    ∀ (is : Items) (bs : Bytes), is.hasPayload = true → encItems c all inner pl v is = .ok bs →
+      ∃ ib, inner = .ok ib
+  | .nil, _, h, _ => by simp [Items.hasPayload] at h
+  | .cons i r, bs, h, he => by
+    simp only [encItems, Outcome.bind] at he
+    cases hi : encItem c all inner pl v i with
+    | err e => simp [hi] at he
+    | panic q => simp [hi] at he
+    | ok a =>
+      simp only [hi] at he
+      cases hr : encItems c all inner pl v r with
+      | err e => simp [hr] at he
+      | panic q => simp [hr] at he
+      | ok b =>
+        cases i with
+        | payload m => simp only [encItem] at hi; exact ⟨a, hi⟩
+        | chunk fs => exact encItems_inner_needed c all inner pl v r b (by simpa [Items.hasPayload] using h) hr
+        | array id elem ew shape pad => exact encItems_inner_needed c all inner pl v r b (by simpa [Items.hasPayload] using h) hr
+        | typedef id ty sb => exact encItems_inner_needed c all inner pl v r b (by simpa [Items.hasPayload] using h) hr
+        | optional id ty ci cv => exact encItems_inner_needed c all inner pl v r b (by simpa [Items.hasPayload] using h) hr
+
+mutual
+theorem encTy_len (c : Cfg) : ∀ (t : Ty) (v : Value) (bs : Bytes),
+    LenWFTy t → encTy c t v = .ok bs → bs.length = lenTy t v
+  | .scalar w, v, bs, _, he => encTy_scalar_length c w v bs he
+  | .enumTy nm en, v, bs, _, he => by
+    rw [encTy_static c (.enumTy nm en) v bs (en.width / 8) rfl he]; rfl
+  | .custom nm w, v, bs, _, he => by
+    rw [encTy_static c (.custom nm w) v bs (w / 8) rfl he]; rfl
+  | .struct _ (.root nm items), v, bs, hw, he => by
+    simp only [LenWFTy, lenWfTy] at hw
+    simp only [encTy, encBody] at he
+    simp only [lenTy, lenBody]
+    split at he
+    · cases he
+    · rename_i p hp
+      rw [encItems_len c items p p.length v items bs hw he]
+      by_cases hpay : items.hasPayload = true
+      · simp only [hpay, ↓reduceIte] at hp
+        cases hg : v.get? "payload" with
+        | none => simp [hg] at hp
+        | some pv =>
+          simp only [hg, Option.bind_some] at hp
+          rw [valBytes_length pv p hp, ← hg]
+          exact lenItemsP_payloadLen v items
+      · have hpay' : items.hasPayload = false := by simpa using hpay
+        exact lenItemsP_noPayload v p.length items hpay'
+  | .struct _ (.derived ..), v, bs, hw, he => by simp [LenWFTy, lenWfTy] at hw
+
+theorem encItem_len (c : Cfg) (all : Items) (ib : Bytes) (pl : Nat) (v : Value) :
+    ∀ (i : Item) (bs : Bytes), LenWFItem i → encItem c all (.ok ib) pl v i = .ok bs →
+      bs.length = lenItemsP (.cons i .nil) v ib.length
+  | .chunk fs, bs, _, he => by
+    simp only [lenItemsP, Nat.add_zero]
+    exact encChunk_length c all (.ok ib) pl v fs bs he
+  | .payload m, bs, _, he => by
+    simp only [encItem, Outcome.ok.injEq] at he
+    simp [lenItemsP, he]
+  | .typedef id ty sb, bs, hw, he => by
+    simp only [LenWFItem, lenWfItem, Bool.and_eq_true] at hw
+    simp only [lenItemsP, Nat.add_zero, lenItem]
+    simp only [encItem] at he
+    cases hv : v.get? id with
+    | none => simp [hv] at he
+    | some x =>
+      simp only [hv] at he
+      cases sb with
+      | some n => exact encTy_static c ty x bs n (by simpa using hw.1) he
+      | none => simpa using encTy_len c ty x bs hw.2 he
+  | .optional id ty ci cv, bs, hw, he => by
+    simp only [LenWFItem, lenWfItem] at hw
+    simp only [lenItemsP, Nat.add_zero, lenItem]
+    simp only [encItem] at he
+    cases hv : v.get? id with
+    | none => simp [hv] at he; simp [← he]
+    | some x =>
+      cases x with
+      | null => simp [hv] at he; simp [← he]
+      | int n =>
+        simp only [hv] at he
+        cases ty with
+        | scalar w =>
+          simp only at he
+          split at he
+          · cases he
+          · split at he
+            · cases he
+            · simp only [Outcome.ok.injEq] at he
+              simp [← he, putUint_length, lenTy]
+        | enumTy nm en => simpa using encTy_len c (.enumTy nm en) (.int n) bs hw he
+        | custom nm w => simpa using encTy_len c (.custom nm w) (.int n) bs hw he
+        | struct nm b => simpa using encTy_len c (.struct nm b) (.int n) bs hw he
+      | arr l =>
+        simp only [hv] at he
+        cases ty with
+        | scalar w => simp at he
+        | enumTy nm en => simpa using encTy_len c (.enumTy nm en) (.arr l) bs hw he
+        | custom nm w => simpa using encTy_len c (.custom nm w) (.arr l) bs hw he
+        | struct nm b => simpa using encTy_len c (.struct nm b) (.arr l) bs hw he
+      | obj l =>
+        simp only [hv] at he
+        cases ty with
+        | scalar w => simp at he
+        | enumTy nm en => simpa using encTy_len c (.enumTy nm en) (.obj l) bs hw he
+        | custom nm w => simpa using encTy_len c (.custom nm w) (.obj l) bs hw he
+        | struct nm b => simpa using encTy_len c (.struct nm b) (.obj l) bs hw he
+  | .array id elem ew shape pad, bs, hw, he => by
+    simp only [LenWFItem, lenWfItem, Bool.and_eq_true] at hw
+    simp only [lenItemsP, Nat.add_zero, lenItem]
+    simp only [encItem, Outcome.bind] at he
+    cases hl : listField v id with
+    | err e => simp [hl] at he
+    | panic h => simp [hl] at he
+    | ok vs =>
+      have hget : v.get? id = some (.arr vs) := by
+        simp only [listField] at hl
+        split at hl
+        · rename_i ws hws; simp only [Outcome.ok.injEq] at hl; rw [hws, hl]
+        · cases hl
+      simp only [hl] at he
+      cases hc : checkCount shape vs.length with
+      | err e => simp [hc] at he
+      | panic h => simp [hc] at he
+      | ok u =>
+        simp only [hc] at he
+        cases hp : checkPad pad (arrSize ew (lenTy elem) vs) with
+        | err e => simp [hp] at he
+        | panic h => simp [hp] at he
+        | ok u2 =>
+          simp only [hp] at he
+          cases hel : encListWith (encTy c elem) vs with
+          | err e => simp [hel] at he
+          | panic h => simp [hel] at he
+          | ok es =>
+            simp only [hel] at he
+            cases pad with
+            | some q =>
+              simp only [padTo] at he
+              split at he
+              · simp only [Outcome.ok.injEq] at he
+                rw [← he, List.length_append]; simp [zeros]; omega
+              · cases he
+            | none =>
+              simp only [padTo, Outcome.ok.injEq] at he
+              subst he
+              simp only [hget, Option.bind_some, Value.asList?, Option.getD_some]
+              cases ew with
+              | static w =>
+                have hst : staticTy elem = some w := by simpa using hw.1
+                have := encListWith_length (encTy c elem) (fun _ => w)
+                  (fun x b hx => encTy_static c elem x b w hst hx) vs es hel
+                simp only [this, sumLen_const]
+              | dynamic =>
+                exact encListWith_length (encTy c elem) (lenTy elem)
+                  (fun x b hx => encTy_len c elem x b hw.2 hx) vs es hel
+              | unknown =>
+                exact encListWith_length (encTy c elem) (lenTy elem)
+                  (fun x b hx => encTy_len c elem x b hw.2 hx) vs es hel
+
+theorem encItems_len (c : Cfg) (all : Items) (ib : Bytes) (pl : Nat) (v : Value) :
+    ∀ (is : Items) (bs : Bytes), LenWFItems is → encItems c all (.ok ib) pl v is = .ok bs →
+      bs.length = lenItemsP is v ib.length
+  | .nil, bs, _, he => by
+    simp only [encItems, Outcome.ok.injEq] at he
+    simp [lenItemsP, ← he]
+  | .cons i r, bs, hw, he => by
+    simp only [LenWFItems, lenWfItems, Bool.and_eq_true] at hw
+    simp only [encItems, Outcome.bind] at he
+    cases hi : encItem c all (.ok ib) pl v i with
+    | err e => simp [hi] at he
+    | panic q => simp [hi] at he
+    | ok a =>
+      simp only [hi] at he
+      cases hr : encItems c all (.ok ib) pl v r with
+      | err e => simp [hr] at he
+      | panic q => simp [hr] at he
+      | ok b =>
+        simp only [hr, Outcome.ok.injEq] at he
+        have h1 := encItem_len c all ib pl v i a hw.1 hi
+        have h2 := encItems_len c all ib pl v r b hw.2 hr
+        rw [← he, List.length_append, h1, h2]
+        cases i <;> simp [lenItemsP]
+end
+
+/-- the ancestors' items around the child's bytes: `inner` must have succeeded and the result is
+    `aroundLen` octets long -/
+theorem encAround_len (c : Cfg) : ∀ (b : Body) (v : Value) (inner : Enc Bytes) (len : Nat) (bs : Bytes),
+    LenWFBody b → b.hasPayload = true → encAround c b v inner len = .ok bs →
+      ∃ ib, inner = .ok ib ∧ bs.length = aroundLen b v ib.length
+  | .root _ items, v, inner, len, bs, hw, hp, he => by
+    simp only [encAround] at he
+    simp only [LenWFBody, lenWfBody] at hw
+    obtain ⟨ib, rfl⟩ := encItems_inner_needed c items inner len v items bs hp he
+    exact ⟨ib, rfl, encItems_len c items ib len v items bs hw he⟩
+  | .derived _ parent _ _ items, v, inner, len, bs, hw, hp, he => by
+    simp only [encAround] at he
+    simp only [LenWFBody, lenWfBody, Bool.and_eq_true] at hw
+    obtain ⟨ib', hib', hlen⟩ := encAround_len c parent v _ _ bs hw.1.2 hw.2 he
+    obtain ⟨ib, rfl⟩ := encItems_inner_needed c items inner len v items ib' hp hib'
+    have := encItems_len c items ib len v items ib' hw.1.1 hib'
+    exact ⟨ib, rfl, by rw [hlen, this]; rfl⟩
+
+/-- **`encode` writes exactly `encoded_len()` octets** — for every layout whose static annotations
+    agree with its types (`LenWFBody`, what `Schema` guarantees; C16), every value, both byte
+    orders, in the model of the emitted code and in the reference mode alike.  Root packets,
+    structs and inheriting packets at any depth. -/
+theorem encBody_len (c : Cfg) : ∀ (b : Body) (v : Value) (bs : Bytes),
+    LenWFBody b → encBody c b v = .ok bs → bs.length = encLen b v
+  | .root nm items, v, bs, hw, he => by
+    have := encTy_len c (.struct nm (.root nm items)) v bs (by simpa [LenWFTy, LenWFBody, lenWfTy, lenWfBody] using hw)
+      (by simpa [encTy] using he)
+    simpa [lenTy, lenBody, encLen] using this
+  | .derived nm parent cs allCs items, v, bs, hw, he => by
+    simp only [LenWFBody, lenWfBody, Bool.and_eq_true] at hw
+    simp only [encBody] at he
+    split at he
+    · cases he
+    · rename_i p hp
+      obtain ⟨ib, hib, hlen⟩ := encAround_len c parent (withConstants allCs v) _ _ bs hw.1.2 hw.2 he
+      have h1 := encItems_len c items p p.length (withConstants allCs v) items ib hw.1.1 hib
+      simp only [encLen]
+      rw [hlen, h1]
+      congr 1
+      by_cases hpay : items.hasPayload = true
+      · simp only [hpay, ↓reduceIte] at hp
+        cases hg : v.get? "payload" with
+        | none => simp [hg] at hp
+        | some pv =>
+          simp only [hg, Option.bind_some] at hp
+          have hg' : (withConstants allCs v).get? "payload" = some pv := by
+            simp only [withConstants, Value.get?, Value.fields] at hg ⊢
+            rw [List.lookup_append, hg]; rfl
+          rw [valBytes_length pv p hp, ← hg']
+          exact lenItemsP_payloadLen _ items
+      · have hpay' : items.hasPayload = false := by simpa using hpay
+        exact lenItemsP_noPayload _ p.length items hpay'
+
+/-- for a packet or struct without parent this is the model's `lenBody` (what the check compares
+    with the emitted `encoded_len()`) -/
+theorem encLen_root (nm : String) (items : Items) (v : Value) :
+    encLen (.root nm items) v = lenBody (.root nm items) v := by
+  simp [encLen, lenBody]
+
+/-! non-vacuity: `packet P { a: 3, b: 13, x: 16[], _payload_ }` meets `LenWFBody` -/
+example : LenWFBody (.root "P" (.cons (.chunk [.scalar "a" 3, .scalar "b" 13])
+    (.cons (.array "x" (.scalar 16) (.static 2) .unknown none) (.cons (.payload .last) .nil)))) := by
+  simp [LenWFBody, lenWfBody, lenWfItems, lenWfItem, lenWfTy, staticTy]
 
 end Pdlv
